@@ -10,6 +10,7 @@ CONSTANTS
   MaxRead = 0
   MaxStall = 0
   MaxSweep = 0
+  MaxLeave = 0
 CONSTRAINT HighWater
 POSTCONDITION Accept
 CHECK_DEADLOCK FALSE
